@@ -5,7 +5,7 @@ from math import ceil
 
 from rzilcompiler.Transformer.Pures.LetVar import LetVar
 from rzilcompiler.Transformer.Pures.Pure import Pure
-from rzilcompiler.Transformer.ValueType import ValueType
+from rzilcompiler.Transformer.ValueType import ValueType, VTGroup
 
 
 class Sizeof(LetVar):
@@ -13,7 +13,11 @@ class Sizeof(LetVar):
 
     def __init__(self, name: str, op: Pure):
         self.name = name
-        self.size = ceil(op.value_type.bit_width / 8)
+        bit_width = op.value_type.bit_width
+        if op.value_type.group & VTGroup.BOOL:
+            # The result of a comparison or a logical operator is an int.
+            bit_width = 32
+        self.size = ceil(bit_width / 8)
 
         # sizeof yields a size_t (unsigned long).
         LetVar.__init__(self, name, self.size, ValueType(False, 64))
